@@ -204,4 +204,28 @@ theorem escapedIs_escape (s : Bytes) : escapedIs (htmlEscape s) s = true := by
   simp [h60, h.2, htmlUnescape_escape]
 
 
+/-- The controls a browser submits and the form's target, entity-decoded. -/
+def submitted (html : Bytes) : List (Bytes × Bytes) :=
+  (rawFields (tags html)).map (fun p => (htmlUnescape p.1, htmlUnescape p.2))
+def formActions (html : Bytes) : List Bytes := (rawActions (tags html)).map htmlUnescape
+
+theorem fields_of_form (typ p loc rs : Bytes) :
+    submitted (render (formVals typ p loc rs) (formTemplate (!rs.isEmpty))) = withRelay (typ, p) rs ∧
+    formActions (render (formVals typ p loc rs) (formTemplate (!rs.isEmpty))) = [loc] := by
+  have hv := formVals_no_quote typ p loc rs
+  have hok := formTemplate_holesOk (!rs.isEmpty)
+  unfold submitted formActions
+  rw [tags_render _ hv _ hok, rawFields_inst, rawActions_inst, formTemplate_actions]
+  constructor
+  · unfold withRelay
+    by_cases he : rs.isEmpty = true
+    · simp [he, formTemplate_fields_norelay, instVal_hole, formVals, htmlUnescape_escape]
+    · have he' : rs.isEmpty = false := by simpa using he
+      simp only [he', Bool.not_false, formTemplate_fields_relay, List.map_cons, List.map_nil, instVal_hole,
+        instVal_lit, Bool.false_eq_true, if_false]
+      simp [formVals, htmlUnescape_escape]
+      decide
+  · simp [instVal_hole, formVals, htmlUnescape_escape]
+
+
 end C14
